@@ -185,6 +185,10 @@ Definition excepted (ex : list (string * Z)) (op : string) (k : Z) : bool :=
 Definition table_okb (keys : list (string * string * Z * bool)) (ex : list (string * Z)) (tbl : list (string * list schema)) : bool :=
   forallb (fun e => chainb (fun k => adapted_at keys (fst e) k || excepted ex (fst e) k) (snd e)) tbl.
 
+(* no listed exception for op lies in (s, t] *)
+Definition clear_of (ex : list (string * Z)) (op : string) (s t : Z) : bool :=
+  forallb (fun e => negb (String.eqb (fst e) op && (s <? snd e) && (snd e <=? t))) ex.
+
 Fixpoint hist_of (tbl : list (string * list schema)) (op : string) : option (list schema) :=
   match tbl with
   | [] => None
